@@ -29,6 +29,9 @@ func runC18(c *Ctx) {
 	c.rule("format-table", "DecoderFromExtensionWithParams maps .yaml/.yml, .json, .toml, .cue (case-insensitively) to their decoders and anything else to nil; a nil decoder is an error", 5)
 	c.rule("no-early-verify", "dials.Config itself does not invoke Verify while DelayInitialVerification is set (so the file-less first stack that ez builds is never verified); shared with C04/C09", 1)
 	c.rule("visited-flags-written", "flags are the highest layer: the flag sources' visit callback never drops a flag that was given on the command line (shared with C12)", 2)
+	c.rule("defaults-pristine", "(shared with C01/C05) every re-stack starts from a deep copy of the defaults made inside compose: after a watched file change the previous file version's values cannot pose as defaults (defaults < file)", 2)
+	c.rule("event-old-is-predecessor", "(shared with C05/C06) the old config of every new-config event is the config loaded immediately before the install (never a remembered earlier one such as the file-less intermediate)", 1)
+	c.rule("flag-name-recorded", "(shared with C12) in both flag packages every flag name computed for a field is recorded in the name->field table on every path of that loop iteration, in particular before the 'flag already registered by the application' skip, so a given flag is never ignored by Value", 2)
 	c.rule("set-as-list", "the set-to-slice mangler is appended to the file decoder's chain exactly when DisableAutoSetToSlice is false", 1)
 
 	w := c.W
@@ -322,8 +325,11 @@ func runC18(c *Ctx) {
 
 	if k := loadCore(c); k.ok {
 		c04InitialVerifyGuardOnly(c, k, "no-early-verify")
+		c05ComposeFresh(c, k, "defaults-pristine")
+		c05SerialEventOnly(c, k, "event-old-is-predecessor")
 	}
 	c12VisitClosures(c)
+	c12NameRecorded(c, "flag-name-recorded")
 
 	// ---- format-table -------------------------------------------------------------------------------------------
 	c18FormatTable(c)
